@@ -15,7 +15,11 @@ class Livelock(Exception):
     pass
 
 
-def _setup(log, old, new, alive, started, new_dies=False, broken_during=False):
+class WaitAborted(Exception):
+    pass
+
+
+def _setup(log, old, new, alive, started, new_dies=False, broken_during=False, wait_raises=False):
     mgmt = FakeLock(log, "mgmt")
     rl = FakeLock(log, "submit_resize")
     procs = {10 + i: FakeProcess(log, 10 + i, alive=alive[i]) for i in range(len(alive))}
@@ -23,7 +27,7 @@ def _setup(log, old, new, alive, started, new_dies=False, broken_during=False):
     flags = FakeFlags(FakeLock(log, "sl"))
     fake = NS(_submit_resize_lock=rl, _max_workers=old, _executor_manager_thread=(object() if started else None),
               _processes_management_lock=mgmt, _processes=procs, _call_queue=cq, _flags=flags,
-              _pending_work_items={})
+              _pending_work_items={}, executor_id=3)
     fake._executor_manager_thread_wakeup = FakeWakeup(log, flags.shutdown_lock)
     nxt = [50]
     spawned = []
@@ -37,7 +41,13 @@ def _setup(log, old, new, alive, started, new_dies=False, broken_during=False):
             spawned.append((p, len(log)))
 
     fake._adjust_process_count = adjust
-    fake._wait_job_completion = lambda: log.add("wait-jobs", rl.held, mgmt.held)
+    def wait_jobs():
+        log.add("wait-jobs", rl.held, mgmt.held)
+        if wait_raises:
+            # "Trying to resize an executor with running jobs" is a UserWarning (an exception under -W error);
+            # the polling loop can also be interrupted
+            raise WaitAborted()
+    fake._wait_job_completion = wait_jobs
     idle = [0]
 
     def sleep(dt):
@@ -185,3 +195,31 @@ def check_wait_job_completion(n_pending: int, done_per_poll: int) -> bool:
     want_polls = (n_pending + done_per_poll - 1) // done_per_poll
     return polls[0] == want_polls and log.count("warn") == (1 if n_pending else 0) and \
         (not n_pending or log[0][1] is UserWarning)
+
+
+def check_resize_aborted(old: int, new: int, n_alive: int) -> bool:
+    """
+    pre: 1 <= old <= 3 and 1 <= new <= 3 and old != new and 0 <= n_alive <= old
+    post: _
+    """
+    # the wait for running jobs is aborted by an exception: the resize has not happened, and nothing may pretend
+    # it has - same nominal size, no sentinel posted, no worker spawned - so that repeating the request really
+    # resizes (C09: "has the requested number of workers"; C08: never more workers than max_workers)
+    old, new, n_alive = _conc(old, 3), _conc(new, 3), _conc(n_alive, 3)
+    log = Log()
+    fake, procs, cq, mgmt, rl, sleep = _setup(log, old, new, [True] * n_alive, True, wait_raises=True)
+    before = dict(procs)
+    saved = rx.time
+    rx.time = NS(sleep=sleep)
+    try:
+        try:
+            _ReusablePoolExecutor._resize(fake, new)
+            return False  # the abort of the wait must reach the caller
+        except WaitAborted:
+            pass
+        except Livelock:
+            return False
+    finally:
+        rx.time = saved
+    return (fake._max_workers == old and procs == before and not rl.held and not mgmt.held
+            and not [e for e in log if e[0] in ("cq-put", "adjust")])
